@@ -230,6 +230,9 @@ func (m *Manager) Peer(ctx context.Context, datahash share.DataHash, height uint
 	// obtained from discovery
 	peerID, ok = m.nodes.tryGet()
 	if ok {
+		if m.removeIfBlacklisted(peerID) {
+			return m.Peer(ctx, datahash, height)
+		}
 		return m.newPeer(ctx, datahash, peerID, sourceDiscoveredNodes, m.nodes.len(), 0)
 	}
 
@@ -242,6 +245,9 @@ func (m *Manager) Peer(ctx context.Context, datahash share.DataHash, height uint
 		}
 		return m.newPeer(ctx, datahash, peerID, sourceShrexSub, p.len(), time.Since(start))
 	case peerID = <-m.nodes.next(ctx):
+		if m.removeIfBlacklisted(peerID) {
+			return m.Peer(ctx, datahash, height)
+		}
 		return m.newPeer(ctx, datahash, peerID, sourceDiscoveredNodes, m.nodes.len(), time.Since(start))
 	case <-ctx.Done():
 		return "", nil, ctx.Err()
@@ -473,6 +479,18 @@ func (m *Manager) removeIfUnreachable(pool *syncPool, peerID peer.ID) bool {
 	if m.isBlacklistedPeer(peerID) || !m.nodes.has(peerID) {
 		log.Debugw("removing outdated peer from pool", "peer", peerID.String())
 		pool.remove(peerID)
+		return true
+	}
+	return false
+}
+
+// removeIfBlacklisted removes peer from discovered nodes pool if it is blacklisted. A blacklisted
+// peer can get into the pool when it is added concurrently with being blacklisted, or together
+// with the other peers of a pool that was validated after the peer had been blacklisted.
+func (m *Manager) removeIfBlacklisted(peerID peer.ID) bool {
+	if m.isBlacklistedPeer(peerID) {
+		log.Debugw("removing blacklisted peer from discovered nodes pool", "peer", peerID.String())
+		m.nodes.remove(peerID)
 		return true
 	}
 	return false
